@@ -16,14 +16,14 @@ from e2.scen import *
 WORDS = [("arith::load", w, 2) for w in ["+", "-", "*", "/", "rem", "min", "max", "<", "<=", ">", ">=", "==", "<>", "band", "bor", "bxor", "bsl", "bsr", "and", "or", "xor"]] + \
         [("arith::load", w, 1) for w in ["neg", "abs", "bnot", "popcnt", "round", ">int", ">real", "zero?", "positive?", "negative?", "not"]] + \
         [("load_core", w, a) for w, a in [("length", 1), ("nth", 2), ("get", 2), ("push", 2), ("insert", 3), ("remove", 2), ("equal?", 2), ("nil?", 1),
-                                          ("assert", 1), ("dup", 1), ("drop", 1), ("swap", 2), ("slice", 3), ("reverse", 1)]] + \
+                                          ("assert", 1), ("dup", 1), ("drop", 1), ("swap", 2)]] + \
         [("bitstr_ext::load", w, 1) for w in ["bits", "bytes", "seek", "int", "uint", "bitstr-len", ">b", ">kb", "open-bitstr"]]
 
 
 # the every-change subset: one representative per implementation family and argument position
 QUICK = {("+", 0), ("+", 1), ("<", 0), ("==", 1), ("band", 0), ("bsl", 1), ("and", 0), ("neg", 0), ("round", 0), ("zero?", 0), ("not", 0),
-         ("length", 0), ("nth", 0), ("nth", 1), ("get", 0), ("get", 1), ("insert", 0), ("remove", 0), ("equal?", 0), ("slice", 0), ("reverse", 0),
-         ("bits", 0), ("seek", 0), ("uint", 0), ("open-bitstr", 0)}
+         ("length", 0), ("nth", 0), ("nth", 1), ("get", 1), ("remove", 0), ("remove", 1), ("equal?", 0),
+         ("bits", 0), ("seek", 0), ("open-bitstr", 0)}
 
 
 def strip_tag(L, c):
